@@ -31,8 +31,11 @@ ASSUMPTIONS = ["PyCifRW's parser is trusted for CIF syntax", "numbers are writte
 P8 = 8 * math.pi ** 2
 
 ATOMS = [("C1", "C", (0.10603, -0.2035, 0.5), 0.0171, (0.0137, 0.0188, 0.0186, 0.0017, -0.0026, 0.0007), 1.0, 4),
-         ("Fe2", "Fe", (0.25, 0.75, -0.125), 0.0271, (0.021, 0.022, 0.023, 0.001, 0.002, -0.003), 0.5, 2),
-         ("O3", "O", (0.5, 0.5, 0.0), 0.0333, (0.031, 0.032, 0.033, -0.001, 0.0, 0.003), 0.75, 2)]
+         # coordinates that LOOK like special fractions but are what the file states: 0.3333 is not 1/3
+         ("Fe2", "Fe", (0.3333, 0.6667, -0.125), 0.0271, (0.021, 0.022, 0.023, 0.001, 0.002, -0.003), 0.5, 2),
+         ("O3", "O", (0.16667, 0.5, 0.8333), 0.0333, (0.031, 0.032, 0.033, -0.001, 0.0, 0.003), 0.75, 2)]
+# Cromer-Mann coefficients an atom-type loop may carry (made-up numbers: nothing may copy them into the library's own table)
+CROMER = ["_atom_type_scat_Cromer_Mann_%s" % k for k in ("a1", "a2", "a3", "a4", "b1", "b2", "b3", "b4", "c")]
 DISP = {"C": (0.0033, 0.0016), "Fe": (0.3463, 0.8444), "O": (0.0106, 0.006), "S": (0.1246, 0.1234), "Cu": (0.3201, 1.2651)}
 CELLS = [(8.5312, 4.8321, 10.125, 90.0, 92.031, 90.0), (5.4307, 5.4307, 5.4307, 90.0, 90.0, 90.0), (7.123, 9.87, 12.001, 81.25, 97.5, 104.75)]
 
@@ -85,10 +88,14 @@ def gen_cif(cfg, sym="P 21/c", cell=CELLS[0], natoms=3):
         if a[1] not in els:
             els.append(a[1])
     if tloop != "absent":
+        cm = tloop == "disp" and glob  # half of the files with dispersion terms also carry Cromer-Mann coefficients in the same loop
         L += ["loop_", "_atom_type_symbol"] + (["_atom_type_scat_dispersion_real", "_atom_type_scat_dispersion_imag"] if tloop == "disp" else ["_atom_type_description"])
+        if cm:
+            L += CROMER
         for el in els:
             fp, fpp = DISP[el]
-            L.append("'%s' %s %s" % (el, esd(fp, es), fmt(fpp, 4)) if tloop == "disp" else "'%s' '%s'" % (el, el))
+            L.append(("'%s' %s %s" % (el, esd(fp, es), fmt(fpp, 4)) if tloop == "disp" else "'%s' '%s'" % (el, el))
+                     + (" 1.1 2.2 3.3 0.4 10.5 20.6 30.7 40.8 0.9" if cm else ""))
     L += ["loop_", "_atom_site_label", "_atom_site_type_symbol", "_atom_site_fract_x", "_atom_site_fract_y", "_atom_site_fract_z"]
     base = {"Uiso": ["Uiso"], "Uani": ["Uani"], "Biso": ["Biso"], "Bani": ["Bani"], "absent": [None], "mixed": ["Uani", "Uiso", "Biso"]}[adp]
     kinds = [base[i % len(base)] for i in range(len(atoms))]
@@ -244,6 +251,7 @@ def check_case(case):
             kinds = [(1, ("Uiso", False, True, None, "disp", False)), (3, ("Uani", True, True, None, "disp", True)), (12, ("mixed", False, False, None, "disp", False)),
                      (2, ("Biso", False, True, "_atom_site_symmetry_multiplicity", "nodisp", False)), (12, ("Uiso", True, True, None, "absent", False))]
             held = []
+            builders = []
             for step, ki in enumerate(covering_walk(len(kinds))):
                 n_at, cfg = kinds[ki]
                 txt, exp = gen_cif(cfg, cell=CELLS[step % 3], natoms=n_at)
@@ -254,6 +262,14 @@ def check_case(case):
                 b = structure.build_atomlist()
                 b.CIFread(fn)
                 compare_atomlist(r, key, b.atomlist, exp, structure, "P21/c")
+                # builders that have read earlier files are used to OPEN this file (the block goes to a fresh builder): what they read
+                # before - the atom lists their callers hold - must stay what it was
+                for pb, pk, pexp in builders[-2:]:
+                    blk = pb.CIFopen(fn)
+                    nb = structure.build_atomlist()
+                    nb.CIFread(cifblk=blk)
+                    compare_atomlist(r, key + ":block-opened-by-a-used-builder", nb.atomlist, exp, structure, "P21/c")
+                builders.append((b, key, exp))
                 held.append((key, b.atomlist, exp))
                 for hk, hal, hexp in held[-4:-1]:
                     compare_atomlist(r, hk + ":re-verified-after-step%d" % step, hal, hexp, structure, "P21/c")
